@@ -95,6 +95,14 @@ pub enum Step {
     IntoIterClone(u32, u32),
     /// grow one value so that about 1/d of the entries are evicted by a single mutate
     MutateEvict(u32),
+    /// Twin differential over a long invalidation history: a clone of the cache
+    /// and the cache itself get the same history - remove one key, then `n`
+    /// rounds of insert + remove of a scratch key, with no successful lookup in
+    /// between - except that the cache first answers one `contains(key)` through
+    /// a shared reference. A shared-reference operation changes nothing, so the
+    /// twins must answer alike ever after (and the removed key stays absent).
+    /// `n` crosses 2^16: counters of that width wrap.
+    TwinChurn(u32),
 }
 
 impl Step {
@@ -115,6 +123,7 @@ impl Step {
             Step::Drain(a, b) => format!("drain:{}:{}", a, b),
             Step::IntoIterClone(a, b) => format!("into_iter_clone:{}:{}", a, b),
             Step::MutateEvict(d) => format!("mutate_evict:{}", d),
+            Step::TwinChurn(n) => format!("twin_churn:{}", n),
         }
     }
 
@@ -137,6 +146,7 @@ impl Step {
             "drain" => Step::Drain(n(1)?, n(2)?),
             "into_iter_clone" => Step::IntoIterClone(n(1)?, n(2)?),
             "mutate_evict" => Step::MutateEvict(n(1)?.max(1)),
+            "twin_churn" => Step::TwinChurn(n(1)?),
             _ => return None,
         })
     }
@@ -205,8 +215,14 @@ pub fn case_from_seed(seed: u64, long: bool) -> HugeCase {
             14 => Step::Drain(a % 70_000, (a >> 3) % 70_000),
             15 => Step::IntoIterClone(a % 70_000, (a >> 3) % 70_000),
             16 => Step::MutateEvict(2 + a % 5),
+            17 => Step::TwinChurn(65_530 + a % 1_100),
             _ => Step::Fill(1 + a % 70_000),
         });
+    }
+    // every script ends with the long invalidation history (it is cheap)
+    if !steps.iter().any(|s| matches!(s, Step::TwinChurn(_))) {
+        let extra = (splitmix(&mut z) % 1_100) as u32;
+        steps.push(Step::TwinChurn(65_530 + extra));
     }
     HugeCase { hasher, capacity, steps }
 }
@@ -366,7 +382,37 @@ impl World {
                     let k = self.next_key;
                     self.next_key += 1;
                     let v = Self::value_of(k);
-                    match self.cache.insert(k, DVal::new(v, 0)) {
+                    let cap_before = self.cache.capacity();
+                    let len_before = self.cache.len();
+                    let tid = self.cache.verif_table_identity();
+                    crate::hashers::reset_builds();
+                    let r = self.cache.insert(k, DVal::new(v, 0));
+                    let hashes = crate::hashers::builds() as usize;
+                    let rebuilt = self.cache.verif_table_identity() != tid;
+                    if rebuilt {
+                        // automatic growth: the smallest table holding twice the entries, each held entry hashed once
+                        let want = fresh_capacity((2 * len_before).max(1));
+                        let cap = self.cache.capacity();
+                        if cap != want {
+                            self.fail(vec!["C13"], "huge-growth-size", format!("an insertion with {} entries held (capacity {}) rebuilt the table to capacity {}; the smallest table holding twice the entries has capacity {}", len_before, cap_before, cap, want));
+                            return;
+                        }
+                        if hashes > 2 + len_before {
+                            self.fail(vec!["C20"], "huge-hashes-rebuild", format!("a growing insertion with {} entries held computed {} key hashes", len_before, hashes));
+                            return;
+                        }
+                    }
+                    else {
+                        if self.cache.capacity() > cap_before {
+                            self.fail(vec!["C13"], "huge-capacity-drift", format!("capacity went from {} to {} without a rebuild", cap_before, self.cache.capacity()));
+                            return;
+                        }
+                        if hashes > 2 {
+                            self.fail(vec!["C20"], "huge-hashes", format!("an insertion that neither evicts nor grows computed {} key hashes (len {})", hashes, len_before));
+                            return;
+                        }
+                    }
+                    match r {
                         Ok(None) => { },
                         Ok(Some(_)) => { self.fail(vec!["C04"], "huge-insert-phantom", format!("insert of the fresh key {} returned an old value", k)); return; },
                         Err(_) => { self.fail(vec!["C10"], "huge-insert-err", format!("insert of key {} failed", k)); return; },
@@ -569,6 +615,40 @@ impl World {
                 if !ok {
                     self.fail(vec!["C12", "C14"], "huge-into-iter-seq", format!("into_iter over a clone of {} entries yielded the wrong entries", len));
                 }
+            },
+            Step::TwinChurn(n) => {
+                let (k0, v0) = match self.order.front() { Some(e) => *e, None => return };
+                let mut twin = self.cache.clone();
+                // the one difference between the twins: a successful lookup through &self
+                let probe: &Cache = &self.cache;
+                if !probe.contains(&k0) || probe.peek(&k0).map(|v| v.v) != Some(v0) {
+                    self.fail(vec!["C04"], "huge-twin-lookup", format!("contains/peek({}) do not find the oldest entry", k0));
+                    return;
+                }
+                let (a, b) = (self.cache.remove(&k0).map(|v| v.v), twin.remove(&k0).map(|v| v.v));
+                if a != Some(v0) || b != Some(v0) {
+                    self.fail(vec!["C04"], "huge-twin-remove", format!("remove({}) returned {:?} / {:?}", k0, a, b));
+                    return;
+                }
+                self.order.pop_front();
+                self.index.remove(&k0);
+                let scratch = [u32::MAX - 1, u32::MAX - 2, u32::MAX - 3];
+                for r in 0..n {
+                    let s = scratch[(r % 3) as usize];
+                    let _ = self.cache.insert(s, DVal::new(r, 0));
+                    let _ = twin.insert(s, DVal::new(r, 0));
+                    let (x, y) = (self.cache.remove(&s).map(|v| v.v), twin.remove(&s).map(|v| v.v));
+                    let (p, q) = (self.cache.peek(&k0).map(|v| v.v), twin.peek(&k0).map(|v| v.v));
+                    if x != y || p != q {
+                        self.fail(vec!["C19", "C04"], "huge-twins-diverge", format!("round {} after removing key {}: the cache that once answered contains({}) through &self now answers remove/peek {:?}/{:?}, its twin {:?}/{:?}", r, k0, k0, x, p, y, q));
+                        return;
+                    }
+                    if p.is_some() || x != Some(r) {
+                        self.fail(vec!["C04"], "huge-stale-lookup", format!("round {} after removing key {}: peek finds {:?}, removing the scratch key returned {:?}", r, k0, p, x));
+                        return;
+                    }
+                }
+                drop(twin);
             },
             Step::MutateEvict(d) => {
                 let len = self.order.len();
